@@ -68,7 +68,9 @@ class Fn:
     def __init__(self, file, name, impl=None, occurrence=1, slot=None, mode="verify", ret=None,
                  requires=(), ensures=(), decreases=None, loops=None, rewrites=(), inserts=(),
                  props=(), key=None, attrs=(), sig_rewrites=(), recommends=(), impl_header=None,
-                 extra_guard_requires=(), opens_invariants=None, no_unwind=None, for_to_while=(), closures=None, gen_name=None):
+                 extra_guard_requires=(), opens_invariants=None, no_unwind=None, for_to_while=(), closures=None, gen_name=None, lift=None):
+        # R25: {'closure': name, 'captures': [(var, param type, argument expr)], 'part': 'parent' | 'lifted'}
+        self.lift = lift
         self.gen_name = gen_name    # name of the function in the generated file when a sig rewrite renames it
         # R4 (structural form): {k: (header_text, proof_text)} - the k-th closure of the body gets a typed
         # header with a contract; its body (block or expression) is kept verbatim, wrapped in braces
